@@ -569,11 +569,12 @@ class LabelMapper:
                     if isinstance(label_pos, int):
                         label_pos = [label_pos]
 
-                    suffix = "__" + "".join(
+                    suffix = "".join(
                         "1" if idx in label_pos else "0"
                         for idx in range(self.label_variables[k])
                     )
-                    variables[f"{k}{suffix}"] = v
+                    # a compound without label positions has a single, unsuffixed isotopomer
+                    variables[f"{k}__{suffix}" if suffix else k] = v
 
         m.add_variables(variables)
 
